@@ -400,7 +400,7 @@ func (x *Exec) callFunction(fr *Frame, st *State, callee *ssa.Function, args []V
 	u := x.vc.uni
 	if fc, pkg := u.contractFor(callee); !explicitAbstract && fc != nil && !fc.Inline && callee != fr.top.fn || fc != nil && callee == fr.top.fn {
 		// (a recursive call always goes through the contract)
-		return x.contractCall(fr, st, callee, fc, pkg, args, pos, resT)
+		return x.contractCall(fr, st, callee, fc, pkg, args, binds, pos, resT)
 	}
 	if !explicitAbstract && x.canInline(fr, callee) {
 		return x.inlineCall(fr, st, callee, args, binds, pos, resT)
@@ -574,13 +574,27 @@ func (x *Exec) havocCallMS(fr *Frame, st *State, what string, resT types.Type, m
 
 // ---- contract calls
 
-func (x *Exec) contractCall(fr *Frame, st *State, callee *ssa.Function, fc *FuncContract, pkg *PkgInfo, args []Value, pos token.Pos, resT types.Type) Value {
+func (x *Exec) contractCall(fr *Frame, st *State, callee *ssa.Function, fc *FuncContract, pkg *PkgInfo, args []Value, binds []Value, pos token.Pos, resT types.Type) Value {
 	var names []string
 	var ptypes []types.Type
 	for _, p := range callee.Params {
 		names = append(names, p.Name())
 		ptypes = append(ptypes, p.Type())
 	}
+	// a closure under contract: the variables it captures are named in its contract; bind them to
+	// their values at the call (captured by reference: the cell's current content)
+	x.closureBinds = nil
+	if len(binds) == len(callee.FreeVars) && len(binds) > 0 {
+		x.closureBinds = map[string]Value{}
+		for i, fv := range callee.FreeVars {
+			v := binds[i]
+			if v.K == KPtr && callee.Parent() != nil && isCapturedCell(callee.Parent(), fv) {
+				v = x.loadLoc(st, v.Loc)
+			}
+			x.closureBinds[fv.Name()] = v
+		}
+	}
+	defer func() { x.closureBinds = nil }()
 	return x.contractCallSig(fr, st, callee.Name(), names, ptypes, callee.Signature, callee, fc, pkg, args, pos, resT)
 }
 
@@ -589,6 +603,9 @@ func (x *Exec) contractCall(fr *Frame, st *State, callee *ssa.Function, fc *Func
 // receiver, called "self", followed by the method's parameters).
 func (x *Exec) contractCallSig(fr *Frame, st *State, name string, names []string, ptypes []types.Type, sig *types.Signature, callee *ssa.Function, fc *FuncContract, pkg *PkgInfo, args []Value, pos token.Pos, resT types.Type) Value {
 	env := &CEnv{x: x, fr: fr, st: st, pkg: pkg, vars: map[string]Value{}, mode: x.m()}
+	for n, v := range x.closureBinds {
+		env.vars[n] = v
+	}
 	for i, pn := range names {
 		if i < len(args) {
 			a := args[i]
